@@ -193,7 +193,7 @@ def judge_flags(cases, obs, work):
 
 def load_part(tier, seed, work, inputs=None):
     if inputs is None:
-        n_mut, n_rand = (260, 90) if tier == "quick" else (5000, 1500)
+        n_mut, n_rand = (260, 90) if tier == "quick" else (3000, 1000)
         inputs = libvalid.load_inputs(seed, n_mut, n_rand, vlib.REPO)
         # the shipped files themselves must load
         cfgdir = os.path.join(vlib.REPO, "cfg")
@@ -232,6 +232,18 @@ def load_signature(b):
     return "exit%s-without-message" % b["rc"]
 
 
+def min_route(b, texts, d):
+    """The minimiser (a reporting aid, not an observation) may use Library::load in the unit harness, which starts ten
+    times faster than the binary, whenever the harness dies from the same signal on the unreduced input."""
+    exe = HARNESS.get("exe")
+    if not exe:
+        return None
+    if b.get("via") == "harness":
+        return exe
+    sig, _to, _out = libvalid.load_once(texts[b["name"]], d, name="route.cfg", harness=exe)
+    return exe if sig == b["signal"] else None
+
+
 def load_violations(lbad, texts, work):
     """One violation per failure identity. A failure with an abort message is identified by that message; a silent
     one (SIGSEGV ...) by the element path of its minimised input."""
@@ -244,7 +256,7 @@ def load_violations(lbad, texts, work):
         if b["signal"] and sig.endswith(":"):
             if nmin < 40:
                 nmin += 1
-                mintext, path = libvalid.minimise(texts[b["name"]], d, b["signal"], budget=100, harness=HARNESS.get("exe") if b.get("via") == "harness" else None)
+                mintext, path = libvalid.minimise(texts[b["name"]], d, b["signal"], budget=100, harness=min_route(b, texts, d))
                 sig += path
             else:
                 sig += "not-minimised"
@@ -256,7 +268,7 @@ def load_violations(lbad, texts, work):
     for sig, g in sorted(groups.items()):
         b = g["first"]
         if g["min"] is None and b["signal"]:
-            g["min"], _p = libvalid.minimise(texts[b["name"]], d, b["signal"], budget=120, harness=HARNESS.get("exe") if b.get("via") == "harness" else None)
+            g["min"], _p = libvalid.minimise(texts[b["name"]], d, b["signal"], budget=120, harness=min_route(b, texts, d))
         p = vlib.save_replay(PID, "load-" + vlib.digest(sig), {"kind": "load", "signature": sig, "obs": b, "name": b["name"], "count": g["n"],
                                                               "text": g["min"] if g["min"] is not None else texts[b["name"]],
                                                               "original_text": texts[b["name"]][:200000]})
